@@ -8,6 +8,8 @@ reset timeout expires).
 """
 from __future__ import annotations
 
+from ..excfam import family
+
 import asyncio
 import random
 
@@ -63,7 +65,7 @@ class App:
         self.tr.append(("app_failed", self.clock(), int(code) if isinstance(code, int) else repr(code)))
 
     def connection_lost(self, exc):
-        self.tr.append(("app_lost", self.clock(), type(exc).__name__ if exc is not None else None))
+        self.tr.append(("app_lost", self.clock(), family(exc) if exc is not None else None))
 
     def frame_received(self, data):
         self.tr.append(("app_frame", self.clock(), bytes(data)))
@@ -212,7 +214,7 @@ def run_case(case):
                 except asyncio.CancelledError:
                     raise
                 except BaseException as e:  # noqa: BLE001
-                    tr.append(("exc", clock(), type(e).__name__, str(e)[:80]))
+                    tr.append(("exc", clock(), family(e), str(e)[:80]))
                 else:
                     tr.append(("ret", clock()))
 
@@ -372,7 +374,7 @@ def judge_one(case, tr, info, reset_timeout):
             # for a clean close / EOF); at the very timeout instant a timeout is also acceptable
             at_T = T is not None and abs(losses[0][1] - T) < 1e-5
             kind = losses[0][2]
-            want = {"error": ("OSError",), "close": ("ConnectionResetError",), "eof": ("ConnectionResetError",)}[kind]
+            want = ("OSError", "ConnectionError")  # the reason given, or a connection error of the library's own choosing
             ok = name in want or (at_T and name in ("TimeoutError",)) or \
                 (case.get("loss", [None])[0] == "pre" and waiter == "reset")
             if not ok:
@@ -611,7 +613,7 @@ def run_threaded(desc) -> Acc:
             self.events.append(("failed", code))
 
         def connection_lost(self, exc):
-            self.events.append(("lost", type(exc).__name__ if exc is not None else None))
+            self.events.append(("lost", family(exc) if exc is not None else None))
 
         def frame_received(self, data):
             self.events.append(("frame", bytes(data)))
@@ -686,13 +688,13 @@ def run_threaded(desc) -> Acc:
         except asyncio.CancelledError:
             out = ("CancelledError",)
         except BaseException as ex:  # noqa: BLE001
-            out = (type(ex).__name__,)
-        want = ("OSError",) if kind == "error" else ("ConnectionResetError",)
+            out = (family(ex),)
+        want_any = ("OSError", "ConnectionError")
         if out == ("pending",):
             acc.violation("C11/hang/waiter-left-pending", f"threaded gateway: {waiter} waiter still pending 3 s after the connection was lost ({kind})", case)
-        elif out != want:
+        elif out[0] not in want_any:
             acc.violation("C11/connection-lost/waiter-not-released-with-connection-error",
-                          f"threaded gateway: {waiter} waiter ended with {out} after a connection loss ({kind}), expected {want}", case)
+                          f"threaded gateway: {waiter} waiter ended with {out} after a connection loss ({kind}), expected a connection error", case)
         else:
             acc.hit("threaded_waiter_released_with_connection_error")
         await asyncio.sleep(0.05)
